@@ -2,6 +2,7 @@ import LdkModel.Driver.Util
 import LdkModel.Model.KvStore
 import LdkModel.Model.MonPersister
 import LdkModel.Model.FsStore
+import LdkModel.Model.FsFault
 /-! C19 model drivers.
   `c19kv`  — the map store with the validity rules (`Kv.KvOp.apply`) against FilesystemStore(V2).
   `c19mup` — `MonP.start/stepEv/cleanupStale/archive/readAll` (the functions of the theorems) against
@@ -83,6 +84,15 @@ def c19kv : Drv where
          -- the body as its two steps (`async_any_interleaving`): prep outside the lock, commit under it
          let s2 := Fs.commit2 (Fs.prep2 { st := s.st } e.2) e.2
          ({ s with st := s2.st, pend := s.pend.filter (fun e' => e'.1 != nat! id) }, "ok"))
+    | ["axf", id, fault] =>
+      -- the body under an injected I/O fault (`Fs.execF`, the function of `async_faulty_last_ok_wins` /
+      -- `async_faulty_any_history`; `ai` = `Fs.issue`, so a script of ai/axf lines is an `AEv` history): result and
+      -- version bookkeeping by the translated `lockedWrite`
+      (match s.pend.find? (fun e => e.1 == nat! id) with
+       | none => (s, "bad-op")
+       | some e =>
+         let r := Fs.execF s.st e.2 (fault == "1")
+         ({ s with st := r.1, pend := s.pend.filter (fun e' => e'.1 != nat! id) }, if r.2 then "ok" else "err io"))
     | _ =>
       match mkOp ws with
       | some op => run op
